@@ -29,10 +29,10 @@ theorem SameTables.trans {U : Universe} {a b c : St} (h1 : SameTables U a b) (h2
    h2.procs.trans h1.procs, h2.sorted.trans h1.sorted, h2.prio.trans h1.prio,
    fun x h => h2.deadMono x (h1.deadMono x h)⟩
 
-theorem callCb_tables (U : Universe) (s : St) (o : Obj) (m : String) (e : Entry) :
+theorem callCb_tables (U : Universe) [hn : U.NoReenter] (s : St) (o : Obj) (m : String) (e : Entry) :
     SameTables U s (callCb U s o m e).1 := by
   unfold callCb
-  simp only
+  simp only [hn.noReenter]
   cases hr : U.reacts o m ((Dict.get? s.calls (o, m)).getD 0) with
   | none => split <;> exact ⟨rfl, rfl, fun _ => rfl, rfl, rfl, rfl, rfl, fun _ h => h⟩
   | some x =>
@@ -47,7 +47,7 @@ theorem ctrlRecord_tables (U : Universe) (s : St) (ev : String) (o : Obj) (ent :
   · split <;> exact ⟨rfl, rfl, fun _ => rfl, rfl, rfl, rfl, rfl, fun _ h => h⟩
   · exact .refl s
 
-theorem lifecycle_tables (U : Universe) (s : St) (ev : String) (o : Obj) (m : Mapping)
+theorem lifecycle_tables (U : Universe) [U.NoReenter] (s : St) (ev : String) (o : Obj) (m : Mapping)
     (ent : Option Ent) : SameTables U s (lifecycle U s ev o m ent).1 := by
   unfold lifecycle
   split
@@ -64,14 +64,14 @@ theorem removeHandler_tables {U : Universe} (s : St) (o : Obj) : SameTables U s 
 theorem addHandler_tables {U : Universe} (s : St) (o : Obj) (m : Mapping) : SameTables U s (addHandler s o m) :=
   ⟨rfl, rfl, fun _ => rfl, rfl, rfl, rfl, rfl, fun _ h => h⟩
 
-theorem attachEvents_tables (U : Universe) (s : St) (o : Obj) (ent : Option Ent) :
+theorem attachEvents_tables (U : Universe) [U.NoReenter] (s : St) (o : Obj) (ent : Option Ent) :
     SameTables U s (attachEvents U s o ent).1 := by
   unfold attachEvents
   split
   · exact .refl s
   · exact SameTables.trans (addHandler_tables s o _) (lifecycle_tables U _ _ o _ ent)
 
-theorem attachAll_tables (U : Universe) (s : St) (e : Ent) (cs : List Obj) :
+theorem attachAll_tables (U : Universe) [U.NoReenter] (s : St) (e : Ent) (cs : List Obj) :
     SameTables U s (attachAll U s e cs).1 := by
   induction cs generalizing s with
   | nil => exact .refl s
@@ -98,7 +98,7 @@ open Desper
 
 /-- what `remove_component` does: nothing when no (sub)type matches; otherwise the table update
 `detach` for the first matching type in walk order, then event handling only -/
-theorem removeComponent_spec (U : Universe) (s : St) (e : Ent) (t : Ty) :
+theorem removeComponent_spec (U : Universe) [U.NoReenter] (s : St) (e : Ent) (t : Ty) :
     ((visit U t).find? (fun st => (Dict.get? (row s e) st).isSome) = none ∧
         removeComponent U s e t = (s, .ok, none)) ∨
     (∃ st c, (visit U t).find? (fun st => (Dict.get? (row s e) st).isSome) = some st ∧
